@@ -106,7 +106,7 @@ def run_case(case):
     mx = core.maxabs(x64)
     nz = np.abs(x64[x64 != 0])
     wide = nz.size > 0 and nz.max() / nz.min() >= 1e6
-    r.label(kind, pre_label, 'view_' + case['view'], 'strided_view' if case['view'] != 'contiguous' else None,
+    r.label(kind, pre_label, 'separate_row_col_filters' if cfg.get('wave_row') else None, 'view_' + case['view'], 'strided_view' if case['view'] != 'contiguous' else None,
             'converted_module' if conv != 'none' else None, 'convert_' + conv if conv != 'none' else None,
             'dynamic_range>=1e6' if wide else None, 'kind_' + case['rx']['kind'])
     r.nontrivial = bool(wide or case['view'] != 'contiguous' or conv != 'none')
